@@ -62,6 +62,11 @@ def apply_structural(world, op):
     if op["op"] == "register_node":
         world.prog.obj[op["ds"]].register(op["alias"], world.prog.obj[op["n"]])
         return "registered"
+    if op["op"] == "set_dispatch":
+        from labrea import Option
+
+        world.prog.obj[op["ds"]].set_dispatch(Option(op["key"]))
+        return "dispatch-set"
     if op["op"] == "register_value":
         world.prog.obj[op["ds"]].register(op["alias"], Value(("registered", op["tag"])))
         return "registered"
@@ -134,6 +139,31 @@ class C20(HistoryProperty):
         if ds_roots and rng.random() < 0.5:
             d = rng.choice(ds_roots)
             after.insert(rng.randrange(len(after) + 1), {"op": "register_value", "ds": d, "alias": rng.choice(["a", "b", "c", 1, None]), "tag": "late"})
+        pre_restart = []
+        if ds_roots and rng.random() < 0.35:
+            # evaluated, THEN an overload registered, then pickled without being used in between: the registration must be
+            # in force after the restart (nothing remembered from before it may outlive it)
+            d = rng.choice(ds_roots)
+            disp = gen.node_by_id(spec, d)["dispatch"]
+            alias = rng.choice(["a", "b", 1])
+            base_o = copy.deepcopy(rng.choice(ops)["o"])
+            if isinstance(disp, str):
+                base_o[disp] = alias
+            pre_restart = [{"op": "evaluate", "node": d, "o": base_o}, {"op": "register_value", "ds": d, "alias": alias, "tag": "before-restart"}]
+            after.insert(0, {"op": "evaluate", "node": d, "o": base_o})
+        fam = [n for n in spec["nodes"] if n["k"] == "derive" and gen.node_by_id(spec, n["base"])["k"] == "dataset"]
+        if fam and rng.random() < 0.35:
+            # a dataset and one derived from it travel together; AFTER the restart the origin gets another dispatch and an
+            # overload: whatever that means for the derived one, it means the same for the copy
+            d = rng.choice(fam)
+            spec["roots"] = list(dict.fromkeys(spec["roots"] + [d["id"], d["base"]]))
+            key = rng.choice(["M", "M2"])
+            base_o = copy.deepcopy(rng.choice(ops)["o"])
+            base_o[key] = "a"
+            after.append({"op": "set_dispatch", "ds": d["base"], "key": key})
+            after.append({"op": "register_value", "ds": d["base"], "alias": "a", "tag": "after-restart"})
+            for nid in (d["id"], d["base"], d["id"]):
+                after.append({"op": "evaluate", "node": nid, "o": base_o})
         ds_any = [x for x in spec["roots"] if gen.node_by_id(spec, x)["k"] == "dataset"]
         if ds_any and rng.random() < 0.4:
             after.insert(rng.randrange(len(after) + 1), {"op": "try_overload", "ds": rng.choice(ds_any), "alias": rng.choice(["a", "q"])})
@@ -168,8 +198,8 @@ class C20(HistoryProperty):
             for _ in range(2):
                 o = {"M": rng.choice(["cyc", "cyc", "other"]), "A": rng.choice(U.SCALARS)}
                 after.insert(rng.randrange(len(after) + 1), {"op": "evaluate", "node": d["id"], "o": o})
-        restart = {"op": "restart", "how": "fresh" if rng.random() < 0.2 else "inproc", "protocol": rng.randrange(0, 6), "hashseed": str(rng.randrange(1, 10**6))}
-        return {"cfg": cfg, "spec": spec, "form": form, "ops": pre + ops[:r] + [restart] + after}
+        restart = {"op": "restart", "how": "fresh" if rng.random() < (0.6 if pre_restart else 0.2) else "inproc", "protocol": rng.randrange(0, 6), "hashseed": str(rng.randrange(1, 10**6))}
+        return {"cfg": cfg, "spec": spec, "form": form, "ops": pre + ops[:r] + pre_restart + [restart] + after}
 
     def run_case(self, case):
         res = Result()
